@@ -654,7 +654,15 @@ func (g *Gen) spec(seed uint64, index int) Spec {
 		return p.n(n)
 	}
 	versNext := 0
+	var genOp1 func() Op
 	genOp := func() Op {
+		op := genOp1()
+		if (op.K == KCmp || op.K == KCont) && p.chance(1, 120) {
+			op.N = []int{16, 64, 260, 300}[p.n(4)]
+		}
+		return op
+	}
+	genOp1 = func() Op {
 		for tries := 0; tries < 20; tries++ {
 			x := p.n(tot)
 			ki := 0
